@@ -25,6 +25,9 @@ FUTURES = list(_future_module.all_feature_names)
 FIRST = "abcdefghijklmnopqrstuvwxyzABCDEFGHIJKLMNOPQRSTUVWXYZ_"
 REST = FIRST + "0123456789"
 NONASCII = "éßñ名λ"
+# identifier characters that NFKC changes (ligature fi -> "fi", fullwidth x -> "x", feminine ordinal -> "a", micro sign -> mu):
+# the parser normalises them, and so must every way of building an Import (repair cf6ff00)
+UNSTABLE = "\ufb01\uff58\u00aa\u00b5"
 
 _BAD = set(keyword.kwlist) | set(keyword.softkwlist) | {"print", "exec"}
 
@@ -49,7 +52,12 @@ def ident(rng, lo=1, hi=60):
         if rng.random() < 0.04:
             i = rng.randrange(len(s))
             s = s[:i] + rng.choice(NONASCII) + s[i + 1:]
-        if s not in _BAD and not (s.startswith("__") and s.endswith("__")):
+        if rng.random() < 0.025:
+            i = rng.randrange(len(s))
+            s = s[:i] + rng.choice(UNSTABLE) + s[i + 1:]
+        import unicodedata as _ud
+        n_ = _ud.normalize("NFKC", s)
+        if n_ not in _BAD and s not in _BAD and n_.isidentifier() and not (n_.startswith("__") and n_.endswith("__")):
             return s
 
 
